@@ -160,6 +160,56 @@ pub async fn socks5_connect_with<S: AsyncRead + AsyncWrite + Unpin>(s: &mut S, i
     }
 }
 
+/// SOCKS5 CONNECT whose DST.ADDR is a domain name (ATYP 3) given as raw octets: RFC 1928 says
+/// "one octet of name length followed by that many octets" and prescribes no syntax, so a local
+/// application can put anything of 0..=255 octets there. Lock-step client.
+pub async fn socks5_connect_raw_domain<S: AsyncRead + AsyncWrite + Unpin>(s: &mut S, host: &[u8], port: u16) -> Shake {
+    if let Err(e) = socks5_greet(s).await {
+        return e;
+    }
+    let mut req = vec![5u8, 1, 0, 3];
+    req.push(u8::try_from(host.len()).expect("domain too long"));
+    req.extend_from_slice(host);
+    req.extend_from_slice(&port.to_be_bytes());
+    if let Err(e) = s.write_all(&req).await {
+        return Shake::Closed(format!("write request: {:?}", e.kind()));
+    }
+    match socks5_read_reply(s).await {
+        Err(sh) => sh,
+        Ok((0, _)) => Shake::Granted,
+        Ok((r @ 1..=8, _)) => Shake::Refused(format!("SOCKS5 REP={r}")),
+        Ok((r, _)) => Shake::Malformed(format!("SOCKS5 REP={r}")),
+    }
+}
+
+/// SOCKS4a CONNECT whose host name is given as raw octets (anything without a NUL; the memo
+/// prescribes no syntax). Lock-step client.
+pub async fn socks4a_connect_raw<S: AsyncRead + AsyncWrite + Unpin>(s: &mut S, host: &[u8], port: u16) -> Shake {
+    assert!(!host.contains(&0), "a SOCKS4a host name cannot contain NUL");
+    let mut req = vec![4u8, 1];
+    req.extend_from_slice(&port.to_be_bytes());
+    req.extend_from_slice(&[0, 0, 0, 1]);
+    req.extend_from_slice(b"verif");
+    req.push(0);
+    req.extend_from_slice(host);
+    req.push(0);
+    if let Err(e) = s.write_all(&req).await {
+        return Shake::Closed(format!("write request: {:?}", e.kind()));
+    }
+    let rep = match read_n(s, 8).await {
+        Ok(r) => r,
+        Err(e) => return Shake::Closed(e),
+    };
+    if rep[0] != 0 {
+        return Shake::Malformed(format!("SOCKS4 reply VN={} (must be 0)", rep[0]));
+    }
+    match rep[1] {
+        90 => Shake::Granted,
+        91..=93 => Shake::Refused(format!("SOCKS4 CD={}", rep[1])),
+        x => Shake::Malformed(format!("SOCKS4 reply CD={x}")),
+    }
+}
+
 /// SOCKS5 UDP ASSOCIATE; returns the relay address the client has to send its datagrams to.
 pub async fn socks5_udp_associate<S: AsyncRead + AsyncWrite + Unpin>(s: &mut S) -> Result<SocketAddr, Shake> {
     socks5_greet(s).await?;
@@ -178,8 +228,18 @@ pub async fn socks5_udp_associate<S: AsyncRead + AsyncWrite + Unpin>(s: &mut S) 
 /// HTTP CONNECT (RFC 9110 9.3.6). Reads the response head byte by byte so that nothing of the
 /// tunnel is consumed; any 2xx is success, header fields of a 2xx are ignored.
 pub async fn http_connect<S: AsyncRead + AsyncWrite + Unpin>(s: &mut S, authority: &str) -> Shake {
-    let req = format!("CONNECT {authority} HTTP/1.1\r\nHost: {authority}\r\n\r\n");
-    if let Err(e) = s.write_all(req.as_bytes()).await {
+    http_connect_raw(s, authority.as_bytes()).await
+}
+
+/// HTTP CONNECT whose authority is given as raw octets (odd-target-host sub-matrix: what a local
+/// application puts there is its own business; the proxy owes it an answer or a close).
+pub async fn http_connect_raw<S: AsyncRead + AsyncWrite + Unpin>(s: &mut S, authority: &[u8]) -> Shake {
+    let mut req = b"CONNECT ".to_vec();
+    req.extend_from_slice(authority);
+    req.extend_from_slice(b" HTTP/1.1\r\nHost: ");
+    req.extend_from_slice(authority);
+    req.extend_from_slice(b"\r\n\r\n");
+    if let Err(e) = s.write_all(&req).await {
         return Shake::Closed(format!("write request: {:?}", e.kind()));
     }
     let mut head = Vec::new();
